@@ -40,7 +40,7 @@ def octabox(sub=0):
     return dict(bitmap=bitmap, diag=(0, 255, 0, 255), subs=subs)
 
 
-def s_full(version=5, glat_version=3, compress=(), rtl=False, with_collision=True, subboxes=True, glyf=True, extra_attr_glyphs=0, dense_attrs=False, line_ends=False, cmap_edges=False, pass_bits=False):
+def s_full(version=5, glat_version=3, compress=(), rtl=False, with_collision=True, subboxes=True, glyf=True, extra_attr_glyphs=0, dense_attrs=False, line_ends=False, cmap_edges=False, pass_bits=False, bad_glyph=None):
     names = ['notdef', 'space', 'a', 'b', 'c', 'd', 'x', 'y', 'z', 'acute', 'grave', 'pseudo', 'astral', 'lig', 'e', 'f']
     glyphs = []
     for i, n in enumerate(names):
@@ -58,6 +58,7 @@ def s_full(version=5, glat_version=3, compress=(), rtl=False, with_collision=Tru
             for k in range(34): attrs.setdefault(k, 1)
         if dense_attrs and n == 'd': attrs[33] = 9          # only the last attribute number
         g = dict(adv=adv, attrs=attrs, bbox=(0, 0 if adv else 500, 500, 700))
+        if bad_glyph == n: g['bbox'] = (100, 0, -100, 700)          # outline bounding box with xMin > xMax: this one glyph is unreadable
         if glat_version >= 3: g['octabox'] = octabox(2 if (subboxes and n in ('a', 'acute')) else (1 if subboxes and n == 'grave' else 0))
         glyphs.append(g)
     cm = {0x20: 1, 0x61: G['a'], 0x62: G['b'], 0x63: G['c'], 0x64: G['d'], 0x65: G['e'], 0x66: G['f'], 0x301: G['acute'], 0x300: G['grave'], 0x10000: G['astral'], 0x10400: G['astral']}
@@ -150,6 +151,12 @@ def feat_family():
     base['names'] = names
     base['langs'] = [(tag('a'), [(tag('q'), 3)]), (tag('bc'), [(tag('rs'), 3)]), (tag('def'), [(tag('tuv'), 3)]), (tag('ghij'), [(tag('wxyz'), 3)])]
     out['feat_shortids'] = base
+    # ids and language tags with a space that is NOT trailing padding (blank in the middle, leading blank) and numeric ids with 0x20 in a higher byte
+    base = s_min(); ids = [tag('a b'), tag('a bc'), tag('ab c'), tag(' abc'), 0x00002005, 0x00200001, 0x20000001, tag('abc')]
+    base['feats'] = [(fid, 300, 0, [(0, 301), (2, 301), (5, 301)]) for fid in ids]
+    base['names'] = {300: 'F', 301: 'S'}
+    base['langs'] = [(tag('x y'), [(ids[0], 2)]), (tag(' xyz'), [(ids[1], 5)]), (tag('p qr'), [(ids[4], 2), (ids[5], 5)]), (tag('pq'), [(ids[7], 5)])]
+    out['feat_spaceids'] = base
     # ids spread over the whole unsigned 32-bit range (ordering / search by id must be unsigned), referenced by language defaults;
     # several low/high mixes so that any search shape meets a pair of ids that are >= 2^31 apart
     lows = [0x00000002, 0x00000003, 0x00000004, 0x00000005, 0x41424344, 0x7FFFFFFF]; highs = [0x80000000, 0x90000000, 0xA0000001, 0xF7747269, 0xFFFFFFF0, 0xFFFFFFFE]
@@ -166,7 +173,7 @@ def write_all(outdir):
     fonts = {'s_min': s_min(), 's_full': s_full(), 's_full_z': s_full(compress=('Silf', 'Glat')), 's_full_v3': s_full(version=3, glat_version=1, with_collision=False),
              's_full_v4': s_full(version=4, glat_version=2, with_collision=False), 's_full_rtl': s_full(rtl=True), 's_full_nosub': s_full(subboxes=False),
              's_full_zs': s_full(compress=('Silf',)), 's_full_zg': s_full(compress=('Glat',)),
-             's_full_noglyf': s_full(glyf=False), 's_full_extra': s_full(extra_attr_glyphs=3), 's_full_dense': s_full(dense_attrs=True), 's_full_le': s_full(line_ends=True), 's_full_cmapedge': s_full(cmap_edges=True), 's_full_pb': s_full(pass_bits=True), 's_full_rtl_le': s_full(rtl=True, line_ends=True)}
+             's_full_noglyf': s_full(glyf=False), 's_full_extra': s_full(extra_attr_glyphs=3), 's_full_dense': s_full(dense_attrs=True), 's_full_le': s_full(line_ends=True), 's_full_cmapedge': s_full(cmap_edges=True), 's_full_pb': s_full(pass_bits=True), 's_full_badglyph': s_full(bad_glyph='e'), 's_full_badlast': s_full(bad_glyph='f'), 's_full_rtl_le': s_full(rtl=True, line_ends=True)}
     fonts.update(feat_family())
     index = {}
     for name, spec in fonts.items():
